@@ -154,6 +154,12 @@ func encodeFixedLengthFormat(ctx context.Context, fp io.Writer, view *View, opti
 		}
 
 	} else {
+		// The writer walks the positions: a field beyond them would be dropped and a missing one
+		// written as blanks, without any notice.
+		if len(options.DelimiterPositions) != view.FieldLen() {
+			return NewDataEncodingError(fmt.Sprintf("the number of fields %d does not match the number of delimiter positions %s", view.FieldLen(), fixedlen.DelimiterPositions(options.DelimiterPositions)))
+		}
+
 		w, err := fixedlen.NewWriter(fp, options.DelimiterPositions, options.LineBreak, options.Encoding)
 		if err != nil {
 			return NewDataEncodingError(err.Error())
